@@ -1,5 +1,7 @@
 //! Verification harness for chrono: runtime monitors + reference oracles.
+pub mod gen;
 pub mod mon;
 pub mod props;
 pub mod refcal;
+pub mod refinst;
 pub mod rng;
